@@ -143,6 +143,16 @@ Theorem c01_fifo_legal_consequences :
 Proof. exact q_fifo_legal_consequences. Qed.
 Print Assumptions c01_fifo_legal_consequences.
 
+(* the definition is not trivially satisfiable: thread 0's Push 1 has returned, then thread 1
+   calls Pop and gets nil.  Legality alone would accept S = Pop -> nil; Push 1 -- it is the
+   real-time clause that refuses this history. *)
+Theorem c01_hw_definition_rejects :
+  ~ hw_linearizable
+      [HInv 0 (QPush 1%Z); HRes 0 QRPush; HInv 1 QPop; HRes 1 (QRPop None)]
+      (q_fifo_spec []).
+Proof. exact q_hw_rejects_stale_nil. Qed.
+Print Assumptions c01_hw_definition_rejects.
+
 (* non-vacuity: a concrete 3-thread run with a lagging tail that is helped, a failed CAS,
    an empty Pop and a successful Pop *)
 Example c01_nonvacuous :
